@@ -279,49 +279,78 @@ def midnight (obs : Obs α) (date : Date) (tz : TZ) : Except Err Instant := do
     midnightUtc obs d
   else return t
 
-/-- sun.py:519-607. `wall` is the datetime's own wall reading, `offset` its utcoffset in µs
-    (`none` for a naive datetime, which is read as UTC). Returns (zenith, azimuth). -/
-def zenithAndAzimuth (obs : Obs α) (wall : Int) (offset : Option Int)
-    (withRefraction : Bool := true) : α × α :=
-  let latitude := clampLatitude obs.lat
-  let longitude := obs.lon
-  let zone : α := match offset with
-    | none => 0.0
-    | some o => -((ofInt o : α) / 1000000.0) / 3600.0
-  let utcWall : Int := match offset with
-    | none => wall
-    | some o => wall - o
-  let jd : α := julianDayWall utcWall
-  let t := julianDayToCentury jd
-  let declination := sunDeclination t
-  let eqtime := eqOfTime t
-  let solarTimeFix : α := eqtime + (4.0 * longitude) + (60.0 * zone)
-  let trueSolarTime : α :=
+/-- `zone`: minus the UTC offset in hours (0 for a naive datetime) -/
+def zoneHours (offset : Option Int) : α :=
+  match offset with
+  | none => 0.0
+  | some o => -((ofInt o : α) / 1000000.0) / 3600.0
+
+/-- the UTC wall reading of the datetime -/
+def utcWallOf (wall : Int) (offset : Option Int) : Int :=
+  match offset with
+  | none => wall
+  | some o => wall - o
+
+/-- true solar time (minutes), reduced modulo one day — sun.py:545-556 -/
+def trueSolarTime (wall : Int) (offset : Option Int) (longitude eqtime : α) : α :=
+  let solarTimeFix : α := eqtime + (4.0 * longitude) + (60.0 * zoneHours offset)
+  let tst : α :=
     (ofInt (wallHour wall) : α) * 60.0 + ofInt (wallMinute wall)
       + (ofInt (wallSecond wall) : α) / 60.0 + solarTimeFix
-  let trueSolarTime := pymod trueSolarTime 1440.0
-  let hourangle : α := trueSolarTime / 4.0 - 180.0
+  pymod tst 1440.0
+
+def hourAngleOfTst (tst : α) : α := tst / 4.0 - 180.0
+
+def clampUnit (x : α) : α := if 1.0 < x then 1.0 else if x < -1.0 then -1.0 else x
+
+/-- cosine of the zenith angle from latitude, declination, hour angle (degrees) -/
+def cosZenith (latitude declination hourangle : α) : α :=
   let ch := cos (radians hourangle)
   let cl := cos (radians latitude)
   let sl := sin (radians latitude)
   let sd := sin (radians declination)
   let cd := cos (radians declination)
-  let csz := cl * cd * ch + sl * sd
-  let csz : α := if 1.0 < csz then 1.0 else if csz < -1.0 then -1.0 else csz
-  let zenith := degrees (acos csz)
+  cl * cd * ch + sl * sd
+
+def zenithOfCos (csz : α) : α := degrees (acos (clampUnit csz))
+
+/-- azimuth before the final `+ 360` — sun.py:579-598 -/
+def azimuthRaw (latitude declination zenith hourangle : α) : α :=
+  let cl := cos (radians latitude)
+  let sl := sin (radians latitude)
+  let sd := sin (radians declination)
   let azDenom := cl * sin (radians zenith)
-  let azimuth : α :=
-    if 0.001 < fabs azDenom then
-      let azRad := ((sl * cos (radians zenith)) - sd) / azDenom
-      let azRad : α :=
-        if 1.0 < fabs azRad then (if azRad < 0.0 then -1.0 else 1.0) else azRad
-      let az : α := 180.0 - degrees (acos azRad)
-      if 0.0 < hourangle then -az else az
-    else
-      if 0.0 < latitude then 180.0 else 0.0
-  let azimuth : α := if azimuth < 0.0 then azimuth + 360.0 else azimuth
-  let zenith := if withRefraction then zenith - refractionAtZenith zenith else zenith
-  (zenith, azimuth)
+  if 0.001 < fabs azDenom then
+    let azRad := ((sl * cos (radians zenith)) - sd) / azDenom
+    let azRad : α :=
+      if 1.0 < fabs azRad then (if azRad < 0.0 then -1.0 else 1.0) else azRad
+    let az : α := 180.0 - degrees (acos azRad)
+    if 0.0 < hourangle then -az else az
+  else
+    if 0.0 < latitude then 180.0 else 0.0
+
+def normAzimuth (a : α) : α := if a < 0.0 then a + 360.0 else a
+
+def applyRefraction (zenith : α) (withRefraction : Bool) : α :=
+  if withRefraction then zenith - refractionAtZenith zenith else zenith
+
+/-- the geometric (true) zenith and the azimuth from the solar coordinates -/
+def zenithAzimuthOf (latitude declination hourangle : α) : α × α :=
+  let zenith := zenithOfCos (cosZenith latitude declination hourangle)
+  (zenith, normAzimuth (azimuthRaw latitude declination zenith hourangle))
+
+/-- sun.py:519-607. `wall` is the datetime's own wall reading, `offset` its utcoffset in µs
+    (`none` for a naive datetime, which is read as UTC). Returns (zenith, azimuth). -/
+def zenithAndAzimuth (obs : Obs α) (wall : Int) (offset : Option Int)
+    (withRefraction : Bool := true) : α × α :=
+  let latitude := clampLatitude obs.lat
+  let jd : α := julianDayWall (utcWallOf wall offset)
+  let t := julianDayToCentury jd
+  let declination := sunDeclination t
+  let eqtime := eqOfTime t
+  let hourangle := hourAngleOfTst (trueSolarTime wall offset obs.lon eqtime)
+  let za := zenithAzimuthOf latitude declination hourangle
+  (applyRefraction za.1 withRefraction, za.2)
 
 def sunZenith (obs : Obs α) (wall : Int) (offset : Option Int) (withRefraction : Bool := true) : α :=
   (zenithAndAzimuth obs wall offset withRefraction).1
